@@ -264,12 +264,28 @@ func c08NeverThrough(c *mon.Ctx, x psatoken.IClaims, k keys.Pair, cls, sig strin
 }
 
 // c08DecodeCBOR drives the CBOR decode gates with one byte string.
+// c08DecodeCBOR drives the CBOR decode gates with one byte string: twice in a row
+// (seeded fault C08-u: a memo of the previous input that is trusted on a hit), and
+// every fourth claims map also behind one / two CBOR tags (seeded fault C08-v: a
+// pre-check in the gate that its non-validating sibling does not make).
 func c08DecodeCBOR(c *mon.Ctx, wire []byte, sig string) (outcome string) {
+	outcome = c08DecodeCBOROnce(c, wire, sig, "")
+	c08DecodeCBOROnce(c, append([]byte{}, wire...), sig, "/on-repeat")
+	if len(wire) > 0 && wire[0]>>5 == 5 && (len(wire)+int(wire[len(wire)-1]))%4 == 0 {
+		for ti, pre := range [][]byte{{0xd9, 0x02, 0x59}, {0xd8, 0x3d}, {0xd9, 0xd9, 0xf7, 0xd9, 0x02, 0x59}, {0xda, 0x00, 0x01, 0x00, 0x00}} {
+			tagged := append(append([]byte{}, pre...), wire...)
+			c.Count("cbor-tagged:" + c08DecodeCBOROnce(c, tagged, sig, fmt.Sprintf("/tagged-%d", ti)))
+		}
+	}
+	return outcome
+}
+
+func c08DecodeCBOROnce(c *mon.Ctx, wire []byte, sig, rep string) (outcome string) {
 	nx, nerr := psatoken.DecodeClaimsFromCBOR(wire)
 	vx, verr := psatoken.DecodeAndValidateClaimsFromCBOR(wire)
 	c.Eval()
 	det := map[string]any{"sig": sig, "wire_hex": mon.Hex(wire), "nonvalidating_err": fmt.Sprint(nerr), "validating_err": fmt.Sprint(verr)}
-	gate := "DecodeAndValidateClaimsFromCBOR"
+	gate := "DecodeAndValidateClaimsFromCBOR" + rep
 	if nerr != nil {
 		if verr == nil {
 			c.Violation("C08/"+gate+"/accepted-undecodable", "validating decoder accepted bytes the non-validating decoder rejects", det)
@@ -299,6 +315,12 @@ func c08DecodeCBOR(c *mon.Ctx, wire []byte, sig string) (outcome string) {
 }
 
 func c08DecodeJSON(c *mon.Ctx, doc []byte, sig string) (outcome string) {
+	outcome = c08DecodeJSONOnce(c, doc, sig, "")
+	c08DecodeJSONOnce(c, append([]byte{}, doc...), sig, "/on-repeat")
+	return outcome
+}
+
+func c08DecodeJSONOnce(c *mon.Ctx, doc []byte, sig, rep string) (outcome string) {
 	nx, nerr := psatoken.DecodeClaimsFromJSON(doc)
 	ux, uerr := psatoken.DecodeUnvalidatedJSONClaims(doc)
 	c.Eval()
@@ -309,7 +331,7 @@ func c08DecodeJSON(c *mon.Ctx, doc []byte, sig string) (outcome string) {
 	for _, gt := range []struct {
 		name string
 		fn   func([]byte) (psatoken.IClaims, error)
-	}{{"DecodeAndValidateClaimsFromJSON", psatoken.DecodeAndValidateClaimsFromJSON}, {"DecodeJSONClaims", psatoken.DecodeJSONClaims}} {
+	}{{"DecodeAndValidateClaimsFromJSON" + rep, psatoken.DecodeAndValidateClaimsFromJSON}, {"DecodeJSONClaims" + rep, psatoken.DecodeJSONClaims}} {
 		vx, verr := gt.fn(doc)
 		c.Eval()
 		det["validating_err"] = fmt.Sprint(verr)
@@ -340,11 +362,17 @@ func c08DecodeJSON(c *mon.Ctx, doc []byte, sig string) (outcome string) {
 }
 
 func c08DecodeCOSE(c *mon.Ctx, tok []byte, pk any, sig string) (outcome string) {
+	outcome = c08DecodeCOSEOnce(c, tok, pk, sig, "")
+	c08DecodeCOSEOnce(c, append([]byte{}, tok...), pk, sig, "/on-repeat")
+	return outcome
+}
+
+func c08DecodeCOSEOnce(c *mon.Ctx, tok []byte, pk any, sig, rep string) (outcome string) {
 	ne, nerr := psatoken.DecodeEvidenceFromCOSE(tok)
 	ve, verr := psatoken.DecodeAndValidateEvidenceFromCOSE(tok)
 	c.Eval()
 	det := map[string]any{"sig": sig, "token_hex": mon.Hex(tok), "nonvalidating_err": fmt.Sprint(nerr), "validating_err": fmt.Sprint(verr)}
-	gate := "DecodeAndValidateEvidenceFromCOSE"
+	gate := "DecodeAndValidateEvidenceFromCOSE" + rep
 	switch {
 	case nerr != nil:
 		if verr == nil {
@@ -444,7 +472,7 @@ func invalidateInPlace(g *model.Gen, y psatoken.IClaims) string {
 }
 
 func runC08(c *mon.Ctx) {
-	c.Rule("every claims-set class of C01 (valid, each single / double / triple rule violation, random products; both profiles; a registered P2-based extension with its own extra rule (negative timestamp) so that a gate that runs only the generic rules is visible) built by direct field assignment, plus objects whose only defect is a profile claim that does not match the implementing type (canonical name unset / foreign; an extension object carrying its base profile's name - not expressible on the wire), plus a second, stricter registered extension whose own rules are reported with the library's ignorable sentinels (mandatory boot seed -> missing-optional, forbidden VSI -> not-in-profile); pushed through the object-side gates (also: attached/encoded while valid, then made invalid IN PLACE through a clearing setter, an exported field or a retained component pointer, and pushed through the gates again) SetClaims, ValidateAndEncodeClaimsToCBOR, ValidateAndEncodeClaimsToJSON, ValidateAndSign (7 algorithms, signer wrapped to count invocations); extension-profile tokens (CBOR, JSON, COSE) that break only the extension's own rule; the wire tokens of C04 (valid / rule-breaking / type-breaking / open encodings), JSON documents of valid and rule-breaking sets, and COSE envelopes (tokens signed with the non-validating Sign, and C04 wire tokens wrapped + signed by the harness) pushed through DecodeAndValidateClaimsFromCBOR, DecodeAndValidateClaimsFromJSON, the deprecated DecodeJSONClaims, DecodeAndValidateEvidenceFromCOSE. Oracle: the library's own Validate() on the same object / on the non-validating sibling's result: Validate fails => the gate returns an error, no bytes, no object, attaches nothing (and never invokes the signer); Validate succeeds => the gate's result equals the non-validating sibling's (bytes, payload+protected header, claims observation, Verify). CBOR / COSE / JSON tokens of a registered P1-derived extension (in CBOR the dispatcher decodes them as plain profile 1, whose validation refuses the foreign name: the gate must refuse as well). Envelopes whose payload is null / undefined / empty / bstr(null) (no claims-set at all) must not pass the validating COSE decoder; valid objects of an extension that makes the client id optional and drops the instance id from the profile pass every object gate. SetClaims(valid) on an Evidence that already holds an envelope (decoded / has signed) must leave Verify as the plain assignment does. Also claims whose Validate() PANICS (typed nil *P1Claims / *P2Claims; a registered extension with a careless validator, as object and as CBOR / JSON / COSE token lacking the extension claim; positive control with the claim): a gate may return an error or let the panic propagate but must never report success, hand out bytes, invoke the signer or attach; and VALID claims of an extension profile that was never registered go through every object gate exactly like through the non-validating sibling. distinct_nontrivial = distinct (gate family, profile, violated-claim classes) signatures")
+	c.Rule("every claims-set class of C01 (valid, each single / double / triple rule violation, random products; both profiles; a registered P2-based extension with its own extra rule (negative timestamp) so that a gate that runs only the generic rules is visible) built by direct field assignment, plus objects whose only defect is a profile claim that does not match the implementing type (canonical name unset / foreign; an extension object carrying its base profile's name - not expressible on the wire), plus a second, stricter registered extension whose own rules are reported with the library's ignorable sentinels (mandatory boot seed -> missing-optional, forbidden VSI -> not-in-profile); pushed through the object-side gates (also: attached/encoded while valid, then made invalid IN PLACE through a clearing setter, an exported field or a retained component pointer, and pushed through the gates again) SetClaims, ValidateAndEncodeClaimsToCBOR, ValidateAndEncodeClaimsToJSON, ValidateAndSign (7 algorithms, signer wrapped to count invocations); extension-profile tokens (CBOR, JSON, COSE) that break only the extension's own rule; the wire tokens of C04 (valid / rule-breaking / type-breaking / open encodings), JSON documents of valid and rule-breaking sets, and COSE envelopes (tokens signed with the non-validating Sign, and C04 wire tokens wrapped + signed by the harness) pushed through DecodeAndValidateClaimsFromCBOR, DecodeAndValidateClaimsFromJSON, the deprecated DecodeJSONClaims, DecodeAndValidateEvidenceFromCOSE. Oracle: the library's own Validate() on the same object / on the non-validating sibling's result: Validate fails => the gate returns an error, no bytes, no object, attaches nothing (and never invokes the signer); Validate succeeds => the gate's result equals the non-validating sibling's (bytes, payload+protected header, claims observation, Verify). CBOR / COSE / JSON tokens of a registered P1-derived extension (in CBOR the dispatcher decodes them as plain profile 1, whose validation refuses the foreign name: the gate must refuse as well). Envelopes whose payload is null / undefined / empty / bstr(null) (no claims-set at all) must not pass the validating COSE decoder; valid objects of an extension that makes the client id optional and drops the instance id from the profile pass every object gate. SetClaims(valid) on an Evidence that already holds an envelope (decoded / has signed) must leave Verify as the plain assignment does. Also claims whose Validate() PANICS (typed nil *P1Claims / *P2Claims; a registered extension with a careless validator, as object and as CBOR / JSON / COSE token lacking the extension claim; positive control with the claim): a gate may return an error or let the panic propagate but must never report success, hand out bytes, invoke the signer or attach; and VALID claims of an extension profile that was never registered go through every object gate exactly like through the non-validating sibling. Every decode gate is driven TWICE in a row with the same bytes (sibling, gate, sibling, gate: the second verdict is judged like the first), and every fourth CBOR claims map is also sent behind one or two CBOR tags (601, 61, 55799+601, a 4-byte tag) - whatever the sibling makes of it, the gate must agree. distinct_nontrivial = distinct (gate family, profile, violated-claim classes) signatures")
 	if err := extprof.Register(extprof.ExtP2Name, extprof.ExtP1Name, extprof.ExtStrictName); err != nil {
 		c.Violation("harness/register", err.Error(), nil)
 		return
